@@ -225,7 +225,7 @@ def write_replay(prop: str, n: int, v: Dict[str, Any], seed: int, tier: str) -> 
 
 def main(prop: str, module: str, worker: Callable[[Ctx], None], *, level: str = "exploration",
          rule: str = "", assumptions: Optional[List[str]] = None, nshards_quick: int = 16,
-         nshards_thorough: int = 16, timeout_quick: float = 900, timeout_thorough: float = 7200,
+         nshards_thorough: int = 16, timeout_quick: float = 2700, timeout_thorough: float = 10800,   # generous wall-clock safety nets (a loaded machine is not a verdict)
          required_counters: Optional[List[str]] = None,
          finish: Optional[Callable[[Result, Dict[str, Any]], None]] = None,
          extra_coverage: Optional[Callable[[Result], Dict[str, Any]]] = None) -> None:
